@@ -181,10 +181,16 @@ func (p *Program) sop1(op uint32, name string, sdst, ssrc0 Src) {
 func (p *Program) SMovB32(sdst, ssrc Src) { p.sop1(0, "s_mov_b32", sdst, ssrc) }
 
 // SMovB64 : sdst pair = ssrc pair.
-func (p *Program) SMovB64(sdst, ssrc Src) { p.sop1(1, "s_mov_b64", sdst, ssrc) }
+func (p *Program) SMovB64(sdst, ssrc Src) { p.sop1wide(1, "s_mov_b64", sdst, ssrc) }
 
 // SAndSaveexecB64 : sdst = EXEC; EXEC = ssrc & EXEC.
-func (p *Program) SAndSaveexecB64(sdst, ssrc Src) { p.sop1(32, "s_and_saveexec_b64", sdst, ssrc) }
+func (p *Program) SAndSaveexecB64(sdst, ssrc Src) { p.sop1wide(32, "s_and_saveexec_b64", sdst, ssrc) }
+
+// sop1wide is sop1 for 64-bit operands (register pairs print as s[n:n+1]).
+func (p *Program) sop1wide(op uint32, name string, sdst, ssrc0 Src) {
+	f, lit := p.enc(ssrc0)
+	p.emit(name+" ", append([]uint32{0xBE800000 | (uint32(sdst)&0x7f)<<16 | op<<8 | f&0xff}, lit...)...)
+}
 
 func (p *Program) sop2(op uint32, name string, sdst, ssrc0, ssrc1 Src) {
 	f0, l0 := p.enc(ssrc0)
@@ -320,6 +326,23 @@ func (p *Program) VLshlrevB64(vdst int, s0, s1 Src) { p.vop3a(655, "v_lshlrev_b6
 // FlatLoadDword : v[vdst] = mem[v[addr:addr+1]].
 func (p *Program) FlatLoadDword(vdst, addr int) {
 	p.emit(fmt.Sprintf("flat_load_dword v%d", vdst), 0xDC000000|20<<18, uint32(vdst)<<24|uint32(addr))
+}
+
+// FlatLoad : a FLAT load with the given opcode (16 ubyte, 17 sbyte, 18 ushort, 20 dword, 21 dwordx2, 23 dwordx4).
+func (p *Program) FlatLoad(op uint32, vdst, addr int) {
+	name := map[uint32]string{16: "flat_load_ubyte", 17: "flat_load_sbyte", 18: "flat_load_ushort", 20: "flat_load_dword", 21: "flat_load_dwordx2", 23: "flat_load_dwordx4"}[op]
+	n := map[uint32]int{21: 2, 23: 4}[op]
+	dst := fmt.Sprintf("v%d", vdst)
+	if n > 1 {
+		dst = fmt.Sprintf("v[%d:%d]", vdst, vdst+n-1)
+	}
+	p.emit(fmt.Sprintf("%s %s", name, dst), 0xDC000000|op<<18, uint32(vdst)<<24|uint32(addr))
+}
+
+// FlatStore : a FLAT store with the given opcode (28 dword, 29 dwordx2, 30 dwordx3, 31 dwordx4).
+func (p *Program) FlatStore(op uint32, addr, data int) {
+	name := map[uint32]string{28: "flat_store_dword", 29: "flat_store_dwordx2", 30: "flat_store_dwordx3", 31: "flat_store_dwordx4"}[op]
+	p.emit(name+" v", 0xDC000000|op<<18, uint32(data)<<8|uint32(addr))
 }
 
 // FlatStoreDword : mem[v[addr:addr+1]] = v[data].
